@@ -404,6 +404,12 @@ func ignoredGuardResults(c *Ctx, ru *Rule, prop string) {
 func auditExtras(c *Ctx, rep *Report) {
 	ru := rep.Rule(rep.Prop+"-A1", "E3", 0, "audit: no call site in the packages the property is anchored in discards a result that this property's rules use as a guard (unless only failing exits follow, or tabled with a reason)")
 	ignoredGuardResults(c, ru, rep.Prop)
+	errorDiscipline(c, rep)
+	lockBalance(c, rep)
+	if rep.Prop != "C15" { // (C15-R6 runs it with its strict map)
+		ru := rep.Rule(rep.Prop+"-A4", "E1", 0, "audit: in the files the property is anchored in, where a function tests the ok of a comma-ok lookup or type assertion, every dereference of the pointer it yielded lies behind the ok edge or a nil test")
+		commaOkDiscipline(c, ru, anchoredFns(c, rep.Prop))
+	}
 }
 
 func thoroughExtras(c *Ctx, rep *Report) {
@@ -411,4 +417,138 @@ func thoroughExtras(c *Ctx, rep *Report) {
 		ru := rep.Rule(rep.Prop+"-T1", "E4-order", 0, "thorough: the acquire-while-holding graph over the mutex classes of "+strings.Join(pkgs, ", ")+" (may-held sets + callee acquisition summaries, depth 4) has no cycle between distinct classes")
 		lockOrderRule(c, ru, pkgs, 0)
 	}
+}
+
+// anchoredFns: the source functions (literals included) defined in the files a property names as its anchors.
+func anchoredFns(c *Ctx, prop string) []*ssa.Function {
+	var out []*ssa.Function
+	for _, f := range c.Fns {
+		if f.Blocks == nil || f.Pkg == nil || !strings.HasPrefix(f.Pkg.Pkg.Path(), Mod) {
+			continue
+		}
+		file := c.Prog.Fset.Position(f.Pos()).Filename
+		if strings.HasSuffix(file, "_test.go") || strings.HasSuffix(file, ".pb.go") {
+			continue
+		}
+		for _, a := range anchorFiles[prop] {
+			if strings.HasSuffix(file, "/"+a) || strings.Contains(file, "/"+a+"/") {
+				out = append(out, f)
+				break
+			}
+		}
+	}
+	sort.Slice(out, func(i, j int) bool { return out[i].Pos() < out[j].Pos() })
+	return out
+}
+
+// errorDiscipline (A2): in every function of the anchored files, an error the function looks at fails the function
+// (errorsFail, rules.go). The places where the code logs a failure and goes on by design are tabled below, one
+// line of reason each; everything else is armed.
+func errorDiscipline(c *Ctx, rep *Report) {
+	ru := rep.Rule(rep.Prop+"-A2", "E1", 0, "audit: in the files the property is anchored in, an error a function looks at makes it fail: no return that can hand out a nil error is reachable past the edge on which the callee's error was found non-nil (sites that log and go on by design are tabled)")
+	n := 0
+	for _, f := range anchoredFns(c, rep.Prop) {
+		n += ru.errorsFail(f, errTolerated[fnKey(f)]...)
+	}
+	ru.OK("error-returning calls whose result is looked at", token.NoPos, n, "")
+}
+
+// errTolerated: function -> callees whose error it looks at and deliberately survives.
+var errTolerated = map[string][]string{
+	"(*p2p/host/basic.addrsManager).makeSignedPeerRecord":            {"(core/crypto.Key).Raw"},                                                               // size estimate only: falls back to a generous constant
+	"p2p/host/resource-manager.NewResourceManager":                   {"net/netip.ParsePrefix", "p2p/host/resource-manager.NewStatsTraceReporter"},            // unparsable allowlist entry skipped; metrics are optional
+	"(*p2p/host/resource-manager.resourceManager).OpenConnection":    {"github.com/multiformats/go-multiaddr/net.ToIP"},                                       // no IP in the endpoint: opened without the per-IP limits
+	"(*p2p/host/resource-manager.resourceManager).openConnection":    {"(*p2p/host/resource-manager.resourceScope).AddConn"},                                  // refused by the standard scopes: retried against the allowlist
+	"(*p2p/http/auth.ClientPeerIDAuth).AuthenticateWithRoundTripper": {"(*p2p/http/auth.ClientPeerIDAuth).doWithToken"},                                       // rejected token: full handshake instead
+	"(p2p/net/swarm.ResolverFromMaDNS).ResolveDNSAddr":               {"(p2p/net/swarm.ResolverFromMaDNS).ResolveDNSAddr"},                                    // an unresolvable nested dnsaddr is dropped
+	"(*p2p/net/swarm.Swarm).Listen":                                  {"(*p2p/net/swarm.Swarm).AddListenAddr"},                                                // per-address errors are collected; Listen fails only if none succeeded
+	"p2p/protocol/circuitv2/client.Reserve":                          {"github.com/multiformats/go-multiaddr.NewMultiaddrBytes"},                              // unparsable relay address ignored
+	"(*p2p/protocol/holepunch.holePuncher).directConnect":            {"(core/host.Host).Connect"},                                                            // failed direct dial: go on to the hole punch
+	"p2p/protocol/identify.NewIDService":                             {"(core/event.Bus).Emitter"},                                                            // degraded mode: the service runs without that event
+	"(*p2p/protocol/identify.idService).handleIdentifyResponse":      {"(core/peerstore.ProtoBook).SupportsProtocols"},                                        // unknown counts as unsupported
+	"p2p/protocol/identify.readAllIDMessages":                        {"(github.com/libp2p/go-msgio/pbio.Reader).ReadMsg"},                                    // io.EOF ends the message sequence: success
+	"(*p2p/security/noise.SessionTransport).SecureInbound":           {"github.com/multiformats/go-multiaddr/net.FromNetAddr"},                                // only to log the failed handshake with an address
+	"(*p2p/security/noise.Transport).SecureInbound":                  {"github.com/multiformats/go-multiaddr/net.FromNetAddr"},                                // same
+	"(*p2p/security/tls.Transport).SecureInbound":                    {"github.com/multiformats/go-multiaddr/net.FromNetAddr"},                                // same
+	"p2p/transport/quic.newListener":                                 {"(github.com/multiformats/go-multiaddr.Multiaddr).ValueForProtocol"},                   // a probe: which QUIC version the address carries
+	"(*p2p/transport/quic.listener).wrapConn":                        {"core/network.UnwrapConnManagementScope"},                                              // no scope from quicreuse: one is opened here
+	"(*p2p/transport/quic.transport).holePunch":                      {"(*math/rand.Rand).Read", "(p2p/transport/quicreuse.RefCountedQUICTransport).WriteTo"}, // carried in punchErr and reported after the loop
+	"(*p2p/transport/websocket.WebsocketTransport).maDial":           {"(github.com/multiformats/go-multiaddr.Multiaddr).ValueForProtocol"},                   // SNI component is optional
+}
+
+// lockBalance (A3): in every function of the anchored files, a mutex the function acquired is released on every path
+// to a return (explicitly, or by a deferred unlock). The functions that hand a held lock on by design are tabled.
+func lockBalance(c *Ctx, rep *Report) {
+	ru := rep.Rule(rep.Prop+"-A3", "E4", 0, "audit: in the files the property is anchored in, no function returns on some path with a mutex it acquired still held (and no deferred unlock registered); functions that hand the lock on by design are tabled")
+	n := 0
+	for _, f := range anchoredFns(c, rep.Prop) {
+		lf := computeLockFlow(f, heldSet{})
+		if why, ok := lockHandOver[fnKey(f)]; ok {
+			ru.OK(fnKey(f)+": lock balance", f.Pos(), 1, "tabled: "+why)
+			continue
+		}
+		acquired := map[string]bool{}
+		for in, h := range lf.may {
+			_ = in
+			for k := range h {
+				acquired[k] = true
+			}
+		}
+		if len(acquired) == 0 {
+			continue
+		}
+		n++
+		var rets []*ssa.Return
+		for ret := range lf.exitMay {
+			rets = append(rets, ret)
+		}
+		sort.Slice(rets, func(i, j int) bool { return rets[i].Pos() < rets[j].Pos() })
+		bad := ""
+		var badPos token.Pos
+		for _, ret := range rets {
+			var ks []string
+			for k := range lf.exitBal[ret] {
+				if !lf.exitDeferred[ret][k] {
+					ks = append(ks, k)
+				}
+			}
+			sort.Strings(ks)
+			if len(ks) > 0 && bad == "" {
+				bad = strings.Join(ks, ", ")
+				badPos = ret.Pos()
+			}
+		}
+		// ... and none is acquired again while it is certainly still held (write mode: the goroutine blocks on itself)
+		for _, b := range f.Blocks {
+			for _, in := range b.Instrs {
+				call, ok := in.(*ssa.Call)
+				if !ok {
+					continue
+				}
+				op, isM := mutexOps[calleeKey(call)]
+				if !isM || !op.acquire || len(call.Call.Args) == 0 {
+					continue
+				}
+				k := pathOf(call.Call.Args[0])
+				if hl, held := lf.must[in][k]; held && (hl.mode == modeW || op.mode == modeW) && bad == "" {
+					bad = k + " (acquired again while held)"
+					badPos = in.Pos()
+				}
+			}
+		}
+		if bad == "" {
+			ru.OK(fnKey(f)+": every acquired mutex is released on every path to a return", f.Pos(), len(rets), "")
+		} else {
+			if badPos == token.NoPos {
+				badPos = f.Pos()
+			}
+			ru.Fail(fnKey(f)+": every acquired mutex is released on every path to a return", badPos, "a path returns with "+bad+" still held and no deferred unlock: the next acquirer blocks forever", "")
+		}
+	}
+	ru.OK("functions that acquire a mutex", token.NoPos, n, "")
+}
+
+// lockHandOver: functions that return with a lock held on purpose.
+var lockHandOver = map[string]string{
+	"(*p2p/host/eventbus.basicBus).withNode": "hands the node lock to the goroutine that runs the second callback, which releases it (C15-R2 checks the contract)",
 }
